@@ -47,11 +47,11 @@ META = dict(
                       'types); (Ka) all fields unbounded non-negative integers below 2^64; (Kb) K<=2 objects (thorough 3), value counts <= 2 (thorough 3) '
                       '(symbolic), type sizes {1,2,4,8,16}, fewer than 4 (thorough 8) chunks',
                 thorough='(I) S<=3, NV<=3, NC<=3'),
-    outside=['larger files', 'values beyond the planted patterns', 'DAQmx (C11)', 'inheritance encodings (C02)'],
+    outside=['default (datetime64) reading of timestamps whose seconds are outside datetime64[us] (NumPy raises OverflowError; range stated in C12)', 'larger files', 'values beyond the planted patterns', 'DAQmx (C11)', 'inheritance encodings (C02)'],
     stubs=['SymStream + struct model for the lead-in kernel', 'int()/isinstance/range on symbolic ints'],
     assumptions=['file bytes come from the independent encoder vf/tdmsmodel.py'],
     buckets=dict(all=['file-read', 'interleaved', 'big-endian', 'multi-chunk', 'properties', 'leadin-complete', 'leadin-incomplete',
-                      'leadin-eof', 'chunks-exact', 'chunks-partial', 'index-stream-kernel', 'random-shape']),
+                      'leadin-eof', 'chunks-exact', 'chunks-partial', 'index-stream-kernel', 'random-shape', 'degenerate-values']),
     replays_per_signature=3,
     validate_samples=10,
 )
@@ -71,6 +71,7 @@ def tasks(tier, seed):
                     ts.append(dict(kind='file', ta=ta, inter=inter, big=big, struct=struct_, S=S, tier=tier))
     ts.append(dict(kind='leadin', big=False))
     ts.append(dict(kind='leadin', big=True))
+    ts.append(dict(kind='degenerate'))
     # seeded random well-formed shapes (inheritance encodings, permuted orders, padding, mixed byte orders, truncation ...)
     for blk in range(4 if tier == 'quick' else 40):
         ts.append(dict(kind='random', seed=seed, block=blk, n=12 if tier == 'quick' else 25))
@@ -454,11 +455,11 @@ def _random_shapes(task):
     return fam
 
 
-def _check_random_shape(sh, fail):
+def _check_random_shape(sh, fail, raw_modes=(False, True)):
     from nptdms import TdmsFile
     from . import c03
     enc = s1.build(sh)
-    for raw_ts in (False, True):
+    for raw_ts in raw_modes:
         expv = {p: c03._trunc_expected(None, enc, p, raw_ts) for p in enc.channels}
         for opener in (TdmsFile.read, TdmsFile.open):
             try:
@@ -494,8 +495,47 @@ def _run_random(task):
     return st
 
 
+# ----------------------------------------------------------------------------- (D) degenerate value patterns
+def _degenerate_shapes():
+    """chunks made only of one special bit pattern: -0.0, +0.0, all ones, NaN with payload, 0x80.., for every fixed-width type"""
+    out = []
+    for t in sorted(tm.TYPES):
+        size = tm.TYPES[t][1]
+        if size is None or t == 0x21:
+            continue
+        pats = [b'\x00' * size, b'\xff' * size, b'\x00' * (size - 1) + b'\x80']
+        if t in (0x08000c, 0x10000d):
+            h = size // 2
+            pats.append(b'\x00' * (h - 1) + b'\x80' + b'\x00' * h)
+            pats.append((b'\x00' * (h - 1) + b'\x80') * 2)
+        for pi, p in enumerate(pats):
+            vals = [[p.hex(), p.hex()], [pats[(pi + 1) % len(pats)].hex(), p.hex()]]
+            for inter in (False, True):
+                # timestamps whose seconds are not representable as datetime64[us] are read in raw mode only (C12 states the range)
+                out.append([dict(s1.seg([[PATHS[0], 'full', t, 2, [], None, vals], [PATHS[1], 'full', 4 if inter else 2, 2 if inter else 1]], 2, inter=inter),
+                                 raw_only=(t == 0x44 and pi > 0)),
+                            s1.seg([[PATHS[0], 'full', t, 2, [], None, [vals[0]]]], 1, inter=inter)])
+    return out
+
+
+def _run_degenerate(task):
+    fam = _degenerate_shapes()
+
+    def fn(ctx):
+        i = ctx.choice('shape', len(fam))
+        ctx.obligations += 1
+        _check_random_shape(fam[i], lambda what, **kw: ctx.fail(what, **kw), (True,) if fam[i][0].get('raw_only') else (False, True))
+        ctx.discharged += 1
+        ctx.note('degenerate-values')
+
+    st = explore(fn, max_paths=5000, time_budget=600)
+    st.pop('wall_s', None)
+    return st
+
+
 def run_task(task):
-    return dict(file=_run_file, leadin=_run_leadin, chunks=_run_chunks, kc=_run_kc, random=_run_random)[task['kind']](task)
+    return dict(file=_run_file, leadin=_run_leadin, chunks=_run_chunks, kc=_run_kc, random=_run_random,
+                degenerate=_run_degenerate)[task['kind']](task)
 
 
 def signature(c):
@@ -505,8 +545,8 @@ def signature(c):
         what = 'exception:%s' % c.get('exc')
     if t['kind'] == 'file':
         return 'C01/file/%s/%s/%s' % (what, tm.TYPES[t['ta']][0], 'interleaved' if t['inter'] else 'contiguous')
-    if t['kind'] == 'random':
-        return 'C01/random/%s/%s' % (what, c.get('mode', ''))
+    if t['kind'] in ('random', 'degenerate'):
+        return 'C01/%s/%s/%s' % (t['kind'], what, c.get('mode', ''))
     return 'C01/%s/%s' % (t['kind'], what)
 
 
@@ -529,8 +569,8 @@ def replay(art):
             if mism:
                 return dict(sig=signature(dict(task=task, what='mismatch:' + mism[0]['what'])), detail=mism[0], raw_ts=raw_ts)
         return None
-    if task['kind'] == 'random':
-        fam = _random_shapes(task)
+    if task['kind'] in ('random', 'degenerate'):
+        fam = _random_shapes(task) if task['kind'] == 'random' else _degenerate_shapes()
         out = []
 
         class Stop(Exception):
@@ -540,7 +580,8 @@ def replay(art):
             out.append(dict(sig=signature(dict(task=task, what=what, exc=kw.get('exc'), mode=kw.get('mode', ''))), **kw))
             raise Stop()
         try:
-            _check_random_shape(fam[inp.get('shape', 0)], fail)
+            sh = fam[inp.get('shape', 0)]
+            _check_random_shape(sh, fail, (True,) if sh[0].get('raw_only') else (False, True))
         except Stop:
             return out[0]
         return None
